@@ -24,6 +24,8 @@ BUDGET = {
 }
 
 SCALES = ['linear', 'log', 'logicle']
+# names that are not scales: fragments, other letter cases and near misses of the three names
+UNKNOWN_SCALES = ['', 'l', 'lo', 'lin', 'line', 'logic', 'logicl', 'icle', 'near', 'Linear', 'Logicle', 'log10', 'logicle ', ' log', 'linearlog', 'symlog']
 
 
 @st.composite
@@ -66,9 +68,9 @@ def _case(draw):
     else:
         nbins = draw(nb)
     if form in ('all', 'list', 'list1') and draw(st.booleans()):
-        scale = [draw(st.sampled_from(SCALES + SCALES + SCALES + ['cubic'])) for _ in range(k)]
+        scale = [draw(st.sampled_from(SCALES + SCALES + SCALES + ['cubic', draw(st.sampled_from(UNKNOWN_SCALES))])) for _ in range(k)]
     else:
-        scale = draw(st.sampled_from(SCALES + SCALES + ['LOG', 'biexp']))
+        scale = draw(st.sampled_from(SCALES + SCALES + ['LOG', 'biexp', draw(st.sampled_from(UNKNOWN_SCALES))]))
     over = {}
     if draw(st.sampled_from([True, False, False, False, False])):
         ints = draw(st.booleans())          # plain Python ints are legal parameter values
@@ -243,6 +245,26 @@ def check(case, obs):
         obs.claim('per_channel', raised(e_par) == raised(e_col) and (raised(e_par) or np.array_equal(np.asarray(e_par), np.asarray(e_col))),
                   lambda: 'channel %d alone (d[:, %d].hist_bins, scale %s) gives other edges than the parent for that channel: %r vs %r' % (
                       j, j, sc0, e_col if raised(e_col) else np.asarray(e_col)[[0, -1]], e_par if raised(e_par) else np.asarray(e_par)[[0, -1]]))
+    # what a sample answered earlier plays no part in what its descendants (or the sample itself, once its events
+    # were overwritten) answer: the same request on a twin that was never asked before gives the same edges
+    if uses_logicle and conv is None and not case.get('derived') and d.shape[0] > 0:
+        twin = build(spec)
+        r1, r2 = FlowCal.transform.to_rfi(d), FlowCal.transform.to_rfi(twin)
+        e1, e2 = call(r1.hist_bins, ch_arg, nbins, scale, **kw), call(r2.hist_bins, ch_arg, nbins, scale, **kw)
+        same = lambda a, b: raised(a) == raised(b) and (raised(a) or all(
+            np.array_equal(np.asarray(x_), np.asarray(y_)) for x_, y_ in zip(a if is_list else [a], b if is_list else [b])))
+        obs.claim('history', same(e1, e2), lambda: 'logicle edges of to_rfi(sample) depend on whether the sample was asked before: %r vs %r' % (
+            e1 if raised(e1) else [np.asarray(x_)[[0, -1]].tolist() for x_ in (e1 if is_list else [e1])],
+            e2 if raised(e2) else [np.asarray(x_)[[0, -1]].tolist() for x_ in (e2 if is_list else [e2])]))
+        half = (np.asarray(d) // 2) if np.asarray(d).dtype.kind in 'ui' else (np.asarray(d) / 2)
+        d[:, :] = half
+        twin[:, :] = half
+        e1, e2 = call(d.hist_bins, ch_arg, nbins, scale, **kw), call(twin.hist_bins, ch_arg, nbins, scale, **kw)
+        obs.claim('history', same(e1, e2), lambda: 'logicle edges after the events were overwritten depend on whether the sample was asked before: %r vs %r' % (
+            e1 if raised(e1) else [np.asarray(x_)[[0, -1]].tolist() for x_ in (e1 if is_list else [e1])],
+            e2 if raised(e2) else [np.asarray(x_)[[0, -1]].tolist() for x_ in (e2 if is_list else [e2])]))
+        obs.label('descendants_asked_again')
+        return
     # edges handed out earlier are not changed by later requests on the same sample
     if snapshot is not None:
         call(d.hist_bins, None, 7, 'linear')
